@@ -1,0 +1,21 @@
+//go:build verif
+
+// Contracts for package containers (comment-only; read by /verif/engine, never compiled into the package).
+//
+// The interface call container.Values() is modelled by its assumed interface contract: it returns a freshly allocated
+// slice and modifies nothing. Every implementation's Values() in this repository is verified against exactly that
+// (C16, C18), so the assumption is discharged implementation by implementation.
+
+package containers
+
+//@ -- GetSortedValues: sorts the snapshot, never the container (empty frame); the result is the snapshot itself
+//@ func GetSortedValues
+//@   modifies nothing
+//@   ensures [C16 C17 C18] len(result) == 0 || fresh(arr(result))
+
+//@ -- GetSortedValuesFunc: as above, and ascending under the comparator (assumed contract of slices.SortFunc)
+//@ func GetSortedValuesFunc
+//@   requires comparator != nil
+//@   modifies nothing
+//@   ensures [C16 C17 C18] len(result) == 0 || fresh(arr(result))
+//@   ensures [C16] sorted: len(result) >= 2 ==> (forall a, b :: 0 <= a && a < b && b < len(result) ==> comparator(result[a], result[b]) <= 0)
